@@ -71,12 +71,12 @@ Print Assumptions c12_lookup_oracle.
 
 (* presorted_set, any history: starting from any state satisfying the invariant
    (no hash array, _sz <= _rsz, 0 < _rsz, block of _rsz slots, first _sz slots strictly sorted)
-   every operation succeeds without an access outside the allocated block, the answers -- up to
-   the stale flag of the iterator returned by insert -- and the sizes are those of the sorted
-   list of unique keys, and size <= rsize throughout. *)
+   every operation succeeds without an access outside the allocated block, ALL answers -- including
+   the iterator returned by insert -- and the sizes are those of the sorted list of unique keys,
+   and size <= rsize throughout. *)
 Theorem c12_presorted_invariant : forall (ops : list op) (s : pset), ps_wf s ->
   exists s' rs, ps_run s ops = Some (s', rs) /\ ps_wf s' /\
-    map (fun x => (erase (fst (fst x)), snd (fst x))) rs = spec_run (abs s) ops /\
+    map fst rs = spec_run (abs s) ops /\
     Forall (fun x => snd (fst x) <= snd x) rs.
 Proof. exact ps_run_refines. Qed.
 Print Assumptions c12_presorted_invariant.
@@ -86,35 +86,53 @@ Print Assumptions c12_presorted_invariant.
 Theorem c12_presorted_refines : forall (tab : list elem) (reserve : nat) (ops : list op),
   keys_sorted tab = true -> (tab <> [] \/ 0 < reserve) ->
   exists s' rs, ps_run (ps_init_array tab reserve) ops = Some (s', rs) /\
-    map (fun x => (erase (fst (fst x)), snd (fst x))) rs = spec_run tab ops /\
+    map fst rs = spec_run tab ops /\
     Forall (fun x => snd (fst x) <= snd x) rs.
 Proof. exact presorted_refines_lemma. Qed.
 Print Assumptions c12_presorted_refines.
 
 Theorem c12_presorted_empty_refines : forall (reserve : nat) (ops : list op), 0 < reserve ->
   exists s' rs, ps_run (ps_init_explicit 0 reserve) ops = Some (s', rs) /\
-    map (fun x => (erase (fst (fst x)), snd (fst x))) rs = spec_run [] ops /\
+    map fst rs = spec_run [] ops /\
     Forall (fun x => snd (fst x) <= snd x) rs.
 Proof. exact presorted_empty_refines_lemma. Qed.
 Print Assumptions c12_presorted_empty_refines.
 
-(* PARTIAL / characterisation: the iterator returned by insert is stale (points into the block
-   just deleted) exactly when the insert succeeded on a full, non-empty set. *)
-Theorem c12_insert_stale_char : forall s e s' ok pos stale,
-  ps_wf s -> ps_insert s e = Some (s', RInsert ok pos stale) ->
-  (stale = true <-> (ok = true /\ p_sz s <> 0 /\ p_sz s = p_rsz s)).
-Proof. exact insert_stale_lemma. Qed.
-Print Assumptions c12_insert_stale_char.
+(* ... so the oracle accepts every history of the model. *)
+Theorem c12_presorted_oracle : forall (tab : list elem) (reserve : nat) (ops : list op),
+  keys_sorted tab = true -> (tab <> [] \/ 0 < reserve) ->
+  exists s' rs, ps_run (ps_init_array tab reserve) ops = Some (s', rs) /\ c12_ps_ok tab ops (map fst rs) = true.
+Proof. exact presorted_oracle_lemma. Qed.
+Print Assumptions c12_presorted_oracle.
 
-(* REFUTED: such a history exists, and the stale iterator is its only deviation from the spec. *)
-Theorem c12_insert_stale_refuted :
-  exists tab reserve ops s' rs,
-    keys_sorted tab = true /\ tab <> [] /\
-    ps_run (ps_init_array tab reserve) ops = Some (s', rs) /\
-    c12_ps_ok tab ops (map (fun x => (fst (fst x), snd (fst x))) rs) = false /\
-    c12_ps_ok tab ops (map (fun x => (erase (fst (fst x)), snd (fst x))) rs) = true.
-Proof. exact stale_refuted_lemma. Qed.
-Print Assumptions c12_insert_stale_refuted.
+(* insert (code since 5f81ca8): the iterator returned is never stale, and the position it reports
+   holds exactly the inserted element in the new state. *)
+Theorem c12_insert_never_stale : forall s e s' ok pos stale,
+  ps_wf s -> ps_insert s e = Some (s', RInsert ok pos stale) -> stale = false.
+Proof. exact insert_never_stale_lemma. Qed.
+Print Assumptions c12_insert_never_stale.
+
+Theorem c12_insert_position : forall s e s' pos,
+  ps_wf s -> ps_insert s e = Some (s', RInsert true pos false) ->
+  exists i, pos = Some i /\ nth_error (abs s') i = Some e /\ i < p_sz s'.
+Proof. exact insert_position. Qed.
+Print Assumptions c12_insert_position.
+
+(* The ORIGINAL insert (before 5f81ca8) returned an iterator into the block it had just deleted
+   exactly when it had to grow; witness: a full two-element set, insert of a third key. *)
+Theorem c12_insert_stale_orig_char : forall s e s' ok pos stale,
+  ps_wf s -> ps_insert_orig s e = Some (s', RInsert ok pos stale) ->
+  (stale = true <-> (ok = true /\ p_sz s <> 0 /\ p_sz s = p_rsz s)).
+Proof. exact insert_orig_stale_lemma. Qed.
+Print Assumptions c12_insert_stale_orig_char.
+
+Theorem c12_insert_stale_orig_refuted :
+  ps_wf full_set /\
+  (exists s', ps_insert_orig full_set (3, 0)%Z = Some (s', RInsert true (Some 2) true)) /\
+  (exists s', ps_insert full_set (3, 0)%Z = Some (s', RInsert true (Some 2) false) /\
+              nth_error (abs s') 2 = Some (3, 0)%Z).
+Proof. exact stale_orig_refuted_lemma. Qed.
+Print Assumptions c12_insert_stale_orig_refuted.
 
 (* REFUTED (corner constructors): an empty set with reserve 0 writes past its zero-length block
    on the first insert; a set built by the hash-array constructor faults on inserting an absent
